@@ -11,8 +11,8 @@ from props import mmulti
 from common import xr, xvec, from_xr, from_xvec, num_close
 
 ID = "C08"
-TARGETS = ["Proofs.C08", "Proofs.GenEq.Prob"]
-GEN_PREFIXES = ["prob."]
+TARGETS = ["Proofs.C08", "Proofs.GenEq.Prob", "Proofs.GenEq.Brier"]
+GEN_PREFIXES = ["prob.", "brier."]
 TRANSLATED = ["bs", "bsunc", "bss", "ign0", "spherical", "quantilescore"]
 THRESHOLD_FAMILY = ["bs", "bsrel", "bsres", "bsunc", "bss", "bssrel", "bssres", "ign0", "spherical", "marginalratio"]
 BINNED = ["bsrel", "bsres", "bssrel", "bssres"]
@@ -32,6 +32,8 @@ THEOREMS = {
         "C08_decomposition", "C08_complement", "C08_complement_getp",
         "C08_no_valid_case"]],
     "Proofs.GenEq.Prob": ["VerifModel.GenEq.Prob.%s_eq" % n for n in TRANSLATED],
+    "Proofs.GenEq.Brier": ["VerifModel.GenEq.Brier." + t for t in [
+        "fold_eq", "H_find", "inBin_disjoint", "bsrel_eq", "bsres_eq", "bssrel_eq", "bssres_eq", "init_consts"]],
 }
 TRUSTED_BASE = [
     "Lean 4.33 kernel; axioms propext, Classical.choice, Quot.sound only",
@@ -250,6 +252,10 @@ def _impl(op):
                        for n in THRESHOLD_FAMILY]
                 out.append(_val(_metric("bs").compute_single(stub, 0, verif.axis.No(), None, _interval((0.5, inf, True, False)))))
                 return " ".join(out)
+            if a[0] == "genbrier":
+                p, o = np.array(from_xvec(a[2]), float), np.array(from_xvec(a[3]), float)
+                guard = common.Unchanged(o, p)
+                return guard.tag(_val(_metric(a[1]).compute_from_obs_fcst(o, p)))
             if a[0] == "prob":
                 extra = from_xr(a[4]) if len(a) > 4 else None
                 D, iv = prob_dataset(a[1], from_xvec(a[2]), from_xvec(a[3]) if a[3] != "-" else [], extra)
@@ -694,6 +700,19 @@ def gen_dataset(rng, tier):
     return D
 
 
+# ---- translator extension (harness/translate_more.py gen_brier): the loops over probability bins
+TRUSTED_BASE = TRUSTED_BASE + [
+    "harness/translate_more.py gen_brier: compute_from_obs_fcst of BsRel / BsRes / BssRel / BssRes is regenerated as a "
+    "fold over the bin numbers (index sets as masks, x[I] = MA.take, x[I] = v as MA.put / MA.putS of Base/Masked.lean; "
+    "self._edges is a parameter, __init__ is read as the two constants num_edges = 11 and last edge = 1.001) - validated "
+    "each run by stream prob.genbrier; GenEq.Brier.bsrel_eq / bsres_eq / bssrel_eq / bssres_eq: on the model's edges the "
+    "folds are the hand-written models of Model/Prob.lean for all vectors (bins are disjoint: inBin_disjoint)"]
+RULE += ("; prob.genbrier: the four machine-translated bin loops against the real compute_from_obs_fcst on probabilities "
+         "on / around the bin edges, in the top bin and outside [0, 1] (in no bin)")
+LEVEL_TEXT += (" The loops over probability bins of BsRel / BsRes / BssRel / BssRes are machine-translated from /repo on "
+               "every run as folds and proved equal to the models the C08_def_* theorems are about.")
+
+
 def gen_ops(tier, rng):
     quick = tier == "quick"
     # ---- exhaustive small vectors
@@ -821,6 +840,20 @@ def gen_ops(tier, rng):
         obs = [rng.choice([0.0, 0.5, 1.0, 2.0, 3.5, -1.0]) for _ in range(L)]
         q = [rng.choice([0.0, 0.5, 1.0, 2.0, 3.5, -1.0]) for _ in range(L)]
         yield "prob.quantile", "prob quantilescore %s %s %s" % (xvec(q), xvec(obs), xr(rng.choice([0.1, 0.25, 0.5, 0.9, 0.0, 1.0])))
+    # ---- the bin loops machine-translated from /repo (Gen/Brier.lean) executed against the real compute_from_obs_fcst:
+    # probabilities on and around the bin edges, in the top bin, outside [0, 1] (in no bin), constant series, one case
+    rb = random.Random(repr(rng.getstate()[1][:4]) + "genbrier")     # derived without advancing rng: the other streams keep their samples
+    for _ in range(150 if quick else 3000):
+        L = rb.choice([1, 2, 3, 5, 8, 12])
+        pool = P20 + [0.1, 0.3, 0.7, 0.9, 1.0, 1.0, 0.0, 0.999, 0.0999] + ([-0.05, 1.0005, 1.2] if rb.random() < 0.3 else [])
+        p = [rb.choice(pool) for _ in range(L)]
+        if rb.random() < 0.1:
+            p = [rb.choice(pool)] * L
+        o = [float(rb.random() < 0.4) for _ in range(L)]
+        if rb.random() < 0.1:
+            o = [o[0]] * L
+        for m in BINNED:
+            yield "prob.genbrier", "genbrier %s %s %s" % (m, xvec(p), xvec(o))
     # ---- structural facts the model relies on (last, so that a failing score is reported with its input first)
     yield "prob.meta", "edges"
     for m in TRANSLATED:
@@ -1014,6 +1047,11 @@ def judge(op, impl_out, spec_out):
                 if not _close(toks[i], st[i]):
                     return (_sig("definition", name, via="lean-spec"), "%s: implementation %s, Lean Spec %s (p=%s o=%s)"
                             % (name, toks[i], st[i], a[1], a[2]))
+        return None
+    if a[0] == "genbrier":
+        o, p = [F(x) for x in from_xvec(a[3])], [F(x) for x in from_xvec(a[2])]
+        if all(x in (0, 1) for x in o) and all(0 <= x <= 1 for x in p):     # inside the definitions' domain
+            return _judge_scores(a[1], o, p, impl_out, 1e-9, op[:160])
         return None
     if a[0] == "prob" and a[1] in THRESHOLD_FAMILY:
         rows = [(F(x), F(y)) for x, y in zip(from_xvec(a[3]), from_xvec(a[2])) if isfin(x) and isfin(y)]
